@@ -220,6 +220,27 @@ def run(rep):
                        f"field `{fld['name']}` of {e}::{v} is not part of the CSE expression: instructions differing only "
                        "in it would be merged")
     rep.floor("R5-cse-key-complete", 15)
+    # ... and in the order of the instruction: two instructions are merged when their keys are equal, so the key of a
+    # non-commutative operation (cmp lt, sub, div, shifts, gep indices ...) must keep its operands in place. No sorting, swapping or
+    # min/max of the operand value numbers; the binders appear in the key in the order of the instruction's fields.
+    for ev in sorted(cse_some):
+        e, v = ev
+        for r in cse_rows[ev]:
+            body = r.body()
+            reord = sorted({n["method"] for n in tab.walk(body) if n.get("k") == "MethodCall" and
+                            re.fullmatch(r"sort|sort_by|sort_by_key|sort_unstable|sort_unstable_by|sort_unstable_by_key|swap|reverse|rev|min|max|minmax|rotate_left|rotate_right", n["method"])} |
+                           {tab.last_seg(tab.show(n["func"])) for n in tab.walk(body) if n.get("k") == "Call" and
+                            re.search(r"(^|::)(swap|min|max)$", tab.show(n["func"]))})
+            fb = r.field_binders(E[e][v]["fields"])
+            order_decl = [b for fld in E[e][v]["fields"] for b in fb.get(fld["name"], ([], None))[0]]
+            seen_order = []
+            for n in tab.walk(body):
+                if n.get("k") == "Path" and n.get("path") in order_decl and n["path"] not in seen_order:
+                    seen_order.append(n["path"])
+            in_order = seen_order == [b for b in order_decl if b in seen_order]
+            rep.ob("R5-cse-key-keeps-operand-order", f"{e}::{v}", not reord and in_order, CSE, r.line,
+                   f"the CSE key of {e}::{v} re-orders its operands ({reord or seen_order}): `cmp lt a b` and `cmp lt b a` (or `sub a b` / `sub b a`) would get "
+                   "the same value number and the dominated one be replaced by the other's result")
 
     # ---- R6: fn_dedup hashes every non-Value field ----------------------------------------------------
     fh = tab.fn(tab.tree(DEDUP), "hash_fn")
